@@ -237,6 +237,15 @@ def handle : P String := do
     if !exchangeOk ps then pure "DEADLOCK" else
     let st := cgIter ps ords mats k (cgInit ps ords mats bs xs)
     pure s!"{showVecs "V" st.x} R {showRat st.rr}"
+  | "pcg" =>
+    let k ← nat; let (_, ps) ← decompP
+    let ords ← many ps.length natList
+    let mats ← many ps.length matP
+    let bs ← vecsP ps.length
+    let xs ← vecsP ps.length
+    if !exchangeOk ps then pure "DEADLOCK" else
+    let st := pcgIter ps ords mats k (pcgInit ps ords mats bs xs)
+    pure s!"{showVecs "V" st.x} R {showRat st.rz}"
   | "csync0" | "csync1" =>
     let kn ← tok
     match kindTree kn with
